@@ -69,14 +69,14 @@ def tlc_valuetext(tier, cfgs):
         results.append(r)
         for ln in r.printed:
             if ln.startswith('<<"RTC"') or ln.startswith('<<"AMB"'):
-                m = re.match(r'<<"(RTC|AMB)", "(\w+)", ', ln)
-                kind = m.group(2)
+                m = re.match(r'<<"(RTC|AMB)", "(\w+)", (?:"(\w+)", )?', ln)
+                kind, level = m.group(2), m.group(3) or "own"
                 for s in _seqs(ln[len(m.group(0)) - 1:]):
                     txt = sym_text(s)
                     if kind == "nodeid":
                         v = valuesu.node("/t", txt)
                     elif kind == "nodetype":
-                        v = valuesu.node(txt, "i")
+                        v = valuesu.node("/" + txt, "i")
                     elif kind == "predid":
                         v = valuesu.imm(txt)
                     elif kind == "predidT":
@@ -85,15 +85,16 @@ def tlc_valuetext(tier, cfgs):
                         v = valuesu.lit("text", txt.encode())
                     else:
                         continue
-                    cands.append({"m": "rt", "v": v})
-                    cands.append({"m": "rt", "v": valuesu.obj(v)})
                     s_, p_, o_ = valuesu.node("/t", "s"), valuesu.imm("p"), valuesu.node("/t", "o")
-                    if v["k"] == "node":
-                        cands.append({"m": "rt", "v": valuesu.triple(v, p_, o_)})
+                    if level == "own":
+                        cands.append({"m": "rt", "v": v})
+                    elif level == "obj":                       # ParseObject, alone and as the object of a triple
+                        cands.append({"m": "rt", "v": valuesu.obj(v)})
                         cands.append({"m": "rt", "v": valuesu.triple(s_, p_, v)})
+                    elif v["k"] == "node":                     # the position ValueText.tla puts it in
+                        cands.append({"m": "rt", "v": valuesu.triple(v, p_, o_)})
                     elif v["k"] == "pred":
                         cands.append({"m": "rt", "v": valuesu.triple(s_, v, o_)})
-                        cands.append({"m": "rt", "v": valuesu.triple(s_, p_, v)})
                     else:
                         cands.append({"m": "rt", "v": valuesu.triple(s_, p_, v)})
             elif ln.startswith('<<"PANIC"') or ln.startswith('<<"NIL"'):
@@ -237,16 +238,16 @@ def component_collision_class(a, b):
 def classify_c06(cls, ev):
     if ev["ev"] == "US":
         if cls == "uuid-panic" and int_overflow(ev["v"]) and "Literal).UUID" in ev["site"] and "index out of range [8]" in ev["msg"]:
-            return "int64-uuid-varint-overflow"
-        return "unexplained:" + cls
+            return ["int64-uuid-varint-overflow"]
+        return []
     if cls == "uuid-panic":
         if (int_overflow(ev["v1"]) or int_overflow(ev["v2"])) and "Literal).UUID" in ev["site"] and "index out of range [8]" in ev["msg"]:
-            return "int64-uuid-varint-overflow"
-        return "unexplained:" + cls
+            return ["int64-uuid-varint-overflow"]
+        return []
     if cls in ("uuid-collision", "triple-equal-disagrees", "graph-exist-disagrees"):
         # Layer B must predict the collision: equal byte strings for unequal values
         if not ev["ueq"] or ev["same"]:
-            return "unexplained:" + cls
+            return []
         a, b = spec_of_recs(ev["v1"]), spec_of_recs(ev["v2"])
         if a["k"] == "triple":
             classes = set()
@@ -255,12 +256,12 @@ def classify_c06(cls, ev):
                     continue
                 k = component_collision_class(a[c], b[c])
                 if k is None:
-                    return "unexplained:" + cls
+                    return []          # a differing component that Layer B does not predict to collide
                 classes.add(k)
-            return "+".join(sorted(classes)) if classes else "unexplained:" + cls
+            return sorted(classes)
         k = component_collision_class(a, b)
-        return k or "unexplained:" + cls
-    return "unexplained:" + cls
+        return [k] if k else []
+    return []
 
 
 GO_SPACE = "\t\n\v\f\r \u0085\u00a0\u1680\u2000\u2001\u2002\u2003\u2004\u2005\u2006\u2007\u2008\u2009\u200a\u2028\u2029\u202f\u205f\u3000"
@@ -481,12 +482,11 @@ def check(prop):
         if ev.get("src", "").startswith("tlc"):
             confirmed += 1
         classes = CLASSIFY[prop](cls, ev)
-        if isinstance(classes, str):
-            classes = [] if classes.startswith("unexplained") else [classes]
         for k in classes or ["unexplained:" + cls]:
             v.reject(k, short(ev), {"trace_line": ln, "monitor_class": cls, "event": ev})
     if st.get("timeout"):
         v.notes.append("the driver stopped at a watchdog timeout: the remaining cases of this run were not explored")
+    open_tlc = sum(1 for (_, _, ev) in opens if ev.get("src", "").startswith("tlc"))
     model_states = sum(r.distinct for r in tlc_runs)
     model_trans = sum(r.generated for r in tlc_runs)
     cov.update({
@@ -496,7 +496,10 @@ def check(prop):
         "rejected_events": len(mine), "open_cases_not_judged": len(opens),
         "open_by_feature": count_open(opens),
         "layer_b_model_states": model_states, "layer_b_candidates": len(cands),
-        "layer_b_candidates_confirmed_on_real_code": confirmed,
+        "layer_b_candidate_cases_executed": st.get("tlc-cases", 0),
+        "layer_b_candidate_cases_confirmed_on_real_code": confirmed,
+        "layer_b_candidate_cases_open": open_tlc,
+        "layer_b_model_drift": max(0, st.get("tlc-cases", 0) - confirmed - open_tlc),
         "driver_stats": {k: n for k, n in sorted(st.items())},
         "samples": samples[:24],
     })
@@ -520,12 +523,16 @@ def check(prop):
     elif prop == "C05":
         cov.update({
             "rule": "RT = print->parse->print of one value with its own parser (node, predicate, literal, ParseObject, triple.Parse); "
-                    "GRT = WriteGraph->ReadIntoGraph of one graph. distinct = distinct (kind, printed text); every round trip is "
-                    "counted non-trivial. Exhaustive part: all strings up to length %d over the %d-character delimiter alphabet as "
+                    "GRT = WriteGraph->ReadIntoGraph of one graph. distinct = distinct (kind, printed text); non-trivial = the value has a "
+                    "component that is not a plain [A-Za-z0-9_] identifier / immutable predicate (i.e. a delimiter, escape, white space, "
+                    "non-ASCII, number, bool, blob or time anchor), or a non-empty graph. Exhaustive part (driver): all strings up to length %d over the %d-character delimiter alphabet as "
                     "node id / node type / predicate id (immutable and temporal) / text, alone and as object, up to length %d inside "
                     "triples; numbers, anchors, blobs, composite values and graphs (<= 30 triples) are boundary sets plus seeded random." % (
                         3 if tier == "quick" else 4, 18, 2 if tier == "quick" else 3),
             "exhaustive": False,
+            "layer_b_model": "ValueText.tla (design level) evaluated exhaustively by TLC: RoundTrip (own parser / ParseObject / inside a "
+                             "triple) for all ids and texts up to length %d over its 10-symbol alphabet, Unambiguous up to length %d; every "
+                             "counterexample was executed on the real code" % (3 if tier == "quick" else 4, 2 if tier == "quick" else 3),
         })
         v.assumptions += [
             "documented domain per docs/temporal_graph_modeling.md; cases with node ids containing white space, node types containing "
@@ -541,10 +548,13 @@ def check(prop):
                     "token sequences up to %d tokens; mutations (truncate/delete/duplicate/inject) of printed values, random strings "
                     "and files are seeded." % ((3, 4, 4) if tier == "quick" else (4, 6, 5)),
             "exhaustive": False,
+            "layer_b_model": "ValueText.tla (design level) evaluated exhaustively by TLC: ParsersTotal (partial slice expressions of "
+                             "node/predicate/literal/object/triple parsers) for all symbol strings up to length %s; every predicted panic "
+                             "was executed on the real code" % ("5/5/4/4/6" if tier == "quick" else "6/6/5/5/7"),
         })
         v.assumptions += [
             "a line is malformed when the real triple.Parse does not turn it into a triple",
-            "a parser returning a predicate with an empty id (which the constructors refuse) is not judged ill-formed",
+            "a parsed value whose components the exported constructors refuse (a predicate with an empty id) is left open (counted), not judged ill-formed",
             "termination is observed with a %d s watchdog per call" % 15]
     cov["samples"] = cov["samples"] or [short(json.loads(open(trace).readline()))]
     return v.finish()
@@ -553,9 +563,74 @@ def check(prop):
 def count_open(opens):
     c = {}
     for (_, _, ev) in opens:
-        for f in ev.get("dom", []) or ["zero-sign"]:
+        if ev["ev"] in ("RT", "GRT"):
+            fs = ev.get("dom") or ["?"]
+        elif ev["ev"] == "UP":
+            fs = ["float64-zero-sign"]
+        else:
+            fs = ["parsed-value-the-constructors-refuse"]
+        for f in fs:
             c[f] = c.get(f, 0) + 1
     return c
+
+
+def cand_of_event(ev):
+    """Recorded event -> candidate that makes the driver execute the same case again."""
+    def spec(kind, recs):
+        sp = spec_of_recs(recs)
+        for r, part in zip(recs, [sp] if len(recs) == 1 else [sp["s"], sp["p"], sp["o"]]):
+            if r["k"] == "pred" and r["b"] == "tmp" and r.get("z") not in ("", "0", None):
+                part["off"] = int(r["z"])
+        return {"k": "obj", "o": sp} if kind == "obj" else sp
+    k = ev["ev"]
+    if k == "RT":
+        return {"m": "rt", "v": spec(ev["kind"], ev["v"])}
+    if k == "P":
+        return {"m": "parse", "kind": ev["kind"], "in": ev["in"]}
+    if k == "UP":
+        return {"m": "pairv", "v": spec(ev["kind"], ev["v1"]), "w": spec(ev["kind"], ev["v2"])}
+    if k == "US":
+        return {"m": "stable", "v": spec(ev["kind"], ev["v"])}
+    if k == "GRT":
+        if any(len(t) != 3 for t in ev["t"]):
+            raise Infra("the recorded graph has an abbreviated long literal and cannot be replayed from the event")
+        return {"m": "graph", "vs": [spec("triple", t) for t in ev["t"]]}
+    if k == "RD":
+        if any(l.startswith("long:") for l in ev["lines"]):
+            raise Infra("the recorded file has an abbreviated long line and cannot be replayed from the event")
+        return {"m": "file", "lines": ev["lines"], "sep": ev["sep"], "trailing": False}
+    raise Infra("unknown event %r" % k)
+
+
+def replay(prop, rp):
+    """./check <ID> --replay <file written by a VIOLATION>: run that one case again on the real code
+    (called by the dispatcher with the loaded record) and judge it with ValueTrace.tla."""
+    path = os.environ.get("VERIF_REPLAY", "?")
+    ev = rp["replay"]["event"]
+    vlib.build_harness(["valuedrv"])
+    d = vlib.scratch("values-replay-")
+    drv = os.path.join(vlib.BUILD_DIR, "valuedrv")
+    cf_, out, stats = os.path.join(d, "c.ndjson"), os.path.join(d, "t.ndjson"), os.path.join(d, "s.json")
+    with open(cf_, "w") as fh:
+        fh.write(json.dumps(cand_of_event(ev)) + "\n")
+    p = vlib.run([drv, MODE[prop], "-only-cands", "-tier", "quick", "-seed", str(vlib.seed()), "-universe", valuesu.UNI,
+                  "-cands", cf_, "-out", out, "-stats", stats], timeout=300, check=False)
+    if p.returncode != 0:
+        raise Infra("valuedrv replay failed: %s" % p.stderr[-2000:])
+    rejects, opens, _, nev = validate(out, workers=1)
+    v = Verdict(prop, vlib.tier(), "exploration")
+    for (ln, pr, cls, e) in rejects:
+        print("replayed event rejected by ValueTrace.tla: %s %s" % (cls, json.dumps(short(e))[:800]))
+        classes = CLASSIFY[prop](cls, e)
+        for k in classes or ["unexplained:" + cls]:
+            v.reject(k, short(e), {"trace_line": ln, "monitor_class": cls, "event": e})
+    if not rejects:
+        print("replayed %d event(s): accepted by ValueTrace.tla (the case no longer fails)" % nev)
+    for cls, (n, w) in sorted(v.known.items()):
+        print("KNOWN-FINDING: property=%s %s (replay)" % (prop, cls))
+    for (cls, w, ro) in v.violations:
+        print("VIOLATION property=%s replay=%s" % (prop, path))
+    return 1 if v.violations else 0
 
 
 def retimeout(ev):
